@@ -91,6 +91,12 @@ def run(case: dict, lean: Lean) -> Outcome:
                         if canon(il) != alone[nname]:
                             spec = False; corr = False; other_fail = True
                             detail.append({"joint_run": list(order), "node": nname, "joint": canon(il)[:6], "alone": alone[nname][:6], "user": u})
+                # the fallback serves rating predictions only: the recommendations are those of the same pipeline without rating prediction
+                # (which the first part compares with the model), i.e. the top of the scoring model's own scores
+                plain = canon(pipe.run("recommender", query=u, items=cand, n=run_n))
+                if alone["recommender"] != plain:
+                    spec = False; corr = False; other_fail = True
+                    detail.append({"recommender_of_rating_pipeline": alone["recommender"][:6], "same_pipeline_without_rating_prediction": plain[:6], "user": u})
                 prim = dict(map(tuple, alone["scorer"])); back = dict(map(tuple, alone["fallback-predictor"]))
                 want = [[i, prim[i] if prim[i] is not None else back[i]] for i, _ in alone["scorer"]]
                 if alone["rating-predictor"] != want:
